@@ -387,7 +387,8 @@ pred_find_seq::result (value_seq &haystack, value_seq &needle) const
   auto const &hay = *haystack.get_seq ();
   auto const &need = *needle.get_seq ();
   return pred_result
-    (std::search (hay.begin (), hay.end (),
+    (need.empty ()
+     || std::search (hay.begin (), hay.end (),
 		  need.begin (), need.end (),
 		  [] (std::unique_ptr <value> const &a,
 		      std::unique_ptr <value> const &b)
